@@ -601,6 +601,63 @@ func c20FetchLeak(legacy bool, res *WRes) {
 	}
 }
 
+// c20MutantCodes: a manipulated credential is refused with a well-formed error (an OAuth 2.0 error code and a
+// 4xx status), never with the fallback {"error":"error"} / HTTP 500 that a raw Go error produces.
+func c20MutantCodes(legacy bool, res *WRes) {
+	w := NewWorld(Profile{LegacyErrors: legacy})
+	auth := w.AuthFor("A")
+	pw := w.Token(url.Values{"grant_type": {"password"}, "username": {"peter"}, "password": {"pw-peter"}, "scope": {"offline a"}}, auth)
+	code := c19Authz(w, "A", "code", "offline a").Param("code")
+	do := w.DeviceAuth(url.Values{"client_id": {"A"}, "scope": {"offline a"}}, auth)
+	w.AcceptUserCode(do.Str("user_code"), true)
+	creds := map[string]string{"refresh_token": pw.Str("refresh_token"), "code": code, "device_code": do.Str("device_code")}
+	muts := map[string]func(pfx, key, sig string) string{
+		"random-part-not-base64":    func(pfx, key, sig string) string { return pfx + "!!!" + key[3:] + "." + sig },
+		"random-part-altered":       func(pfx, key, sig string) string { return pfx + "AAAA" + key[4:] + "." + sig },
+		"random-part-truncated":     func(pfx, key, sig string) string { return pfx + key[:len(key)/2] + "." + sig },
+		"signature-part-not-base64": func(pfx, key, sig string) string { return pfx + key + ".!!!" + sig[3:] },
+		"no-separator":              func(pfx, key, sig string) string { return pfx + key + sig },
+	}
+	var kinds []string
+	for k := range creds {
+		kinds = append(kinds, k)
+	}
+	sort.Strings(kinds)
+	var mnames []string
+	for m := range muts {
+		mnames = append(mnames, m)
+	}
+	sort.Strings(mnames)
+	for _, k := range kinds {
+		pfx, key, sig := c06Split2(creds[k])
+		if len(key) < 8 || len(sig) < 8 {
+			res.note("sanity:mutant-codes-no-credential:" + k)
+			continue
+		}
+		for _, m := range mnames {
+			x := muts[m](pfx, key, sig)
+			var o *Obs
+			switch k {
+			case "refresh_token":
+				o = w.Token(url.Values{"grant_type": {"refresh_token"}, "refresh_token": {x}}, auth)
+			case "code":
+				o = w.Token(url.Values{"grant_type": {"authorization_code"}, "code": {x}, "redirect_uri": {"https://A.example/cb"}}, auth)
+			case "device_code":
+				o = w.Token(url.Values{"grant_type": {"urn:ietf:params:oauth:grant-type:device_code"}, "device_code": {x}}, auth)
+			}
+			res.Trans++
+			res.Evals++
+			res.distinct(fmt.Sprintf("mutant-code|%s|%s|%v", k, m, legacy))
+			if issued(o) {
+				continue // C06's subject
+			}
+			if o.Err == "error" || o.Err == "" || o.Status >= 500 {
+				res.violate(Violation{Property: "C20", Fingerprint: fmt.Sprintf("C20/manipulated-credential-answered-with-malformed-error/%s/%s", k, m), What: fmt.Sprintf("a %s manipulated by %q is answered with HTTP %d, error code %q: not an OAuth 2.0 error response", k, m, o.Status, o.Err), Engine: "c20mutant", Case: map[string]bool{"legacy_format": legacy}, Expected: "a 4xx answer with an OAuth 2.0 error code", Observed: strings.TrimSpace(o.Body)})
+			}
+		}
+	}
+}
+
 type c20Job struct {
 	Fault  bool
 	Writer string
@@ -629,6 +686,7 @@ func init() {
 			}
 			for _, leg := range []bool{false, true} {
 				c20FetchLeak(leg, res)
+				c20MutantCodes(leg, res)
 			}
 			res.sample(map[string]any{"part": "storage error text", "flows": c18Flows})
 			return res, nil
@@ -679,6 +737,17 @@ func init() {
 		}
 		res := &WRes{}
 		c20RunErr(c, res)
+		return res.Viol, nil
+	}
+	replayFns["c20mutant"] = func(raw json.RawMessage) ([]Violation, error) {
+		var c struct {
+			Legacy bool `json:"legacy_format"`
+		}
+		if err := json.Unmarshal(raw, &c); err != nil {
+			return nil, err
+		}
+		res := &WRes{}
+		c20MutantCodes(c.Legacy, res)
 		return res.Viol, nil
 	}
 	replayFns["c20fetch"] = func(raw json.RawMessage) ([]Violation, error) {
